@@ -1602,7 +1602,7 @@ pub(crate) fn derive_struct_diff_enum(enum_: &Enum) -> TokenStream {
                     Generic::ConstGeneric { .. }
                 ))
                 .filter(|g| Generic::has_where_bounds(g, true, true))
-                .map(|gen| Generic::full_with_const(gen, get_used_generic_bounds_ref(), &["\'__diff_target"], true))
+                .map(|gen| Generic::full_with_const(gen, get_used_generic_bounds(), &["\'__diff_target"], true))
                 .collect::<Vec<_>>()
                 .join(",\n")
         ),
